@@ -164,7 +164,7 @@ def to_tlc_groups(case):
             "link": "auto" if g["link"] is None else ("true" if g["link"] else "false"),
             "residual_function": g.get("residual_function", "variable_projection"),
             "datasets": [{"label": d["label"], "axis": d["axis"], "maxis": d.get("maxis") or [], "data": d["data"], "scale": d.get("scale", 1),
-                          "weight": d.get("weight") or [],
+                          "weight": d.get("weight") or [], "simclp": d.get("simclp") or [],
                           "mcs": [{"scale": m.get("scale", 1), "labels": m["labels"], "idx": bool(m.get("idx")), "cols": m["cols"]} for m in d["mcs"]],
                           "gmcs": [{"scale": m.get("scale", 1), "labels": m["labels"], "cols": m["cols"]} for m in d.get("gmcs") or []]} for d in ds],
             "relations": [{"source": r["source"], "target": r["target"], "param": r["param"], "ivs": _tivs(r["ivs"])} for r in case.get("relations", [])],
@@ -180,7 +180,7 @@ def to_tlc_groups(case):
 INVS = ["InvEachPointOnce", "InvBestFit", "InvReducedLabels", "InvSharedIffSameIndex"]
 
 
-def tlc_expected(cases, shards=8, timeout=3000):
+def tlc_expected(cases, shards=8, timeout=3000, module="ObjectiveCases", invs=None):
     """Run spec/ObjectiveCases.tla over all groups of all cases. Returns (per case list of per-group expectation, summed TLC results)."""
     flat = []
     index = []
@@ -190,13 +190,13 @@ def tlc_expected(cases, shards=8, timeout=3000):
             flat.append(g)
     nsh = max(1, min(shards, len(flat) // 50 or 1))
     chunks = [flat[k::nsh] for k in range(nsh)]
-    cfg = "SPECIFICATION Spec\nCONSTRAINT Emit\nCHECK_DEADLOCK FALSE\n" + "".join(f"INVARIANT {i}\n" for i in INVS)
+    cfg = "SPECIFICATION Spec\nCONSTRAINT Emit\nCHECK_DEADLOCK FALSE\n" + "".join(f"INVARIANT {i}\n" for i in (invs or INVS))
 
     def one(k):
         with tempfile.TemporaryDirectory(prefix="verif_obj_") as td:
             f = Path(td) / "cases.json"
             f.write_text(json.dumps(chunks[k]))
-            res = run_tlc("ObjectiveCases", cfg, workers=1, timeout=timeout, env={"CASES_FILE": str(f)}, coverage=False)
+            res = run_tlc(module, cfg, workers=1, timeout=timeout, env={"CASES_FILE": str(f)}, coverage=False)
         exp = printed_json(res["stdout"], "EXP")
         if len(exp) != len(chunks[k]):
             raise MachineryError(f"ObjectiveCases: {len(exp)} expectations for {len(chunks[k])} cases")
@@ -213,7 +213,7 @@ def tlc_expected(cases, shards=8, timeout=3000):
     per_case = [[] for _ in cases]
     for (ci, gi), e in zip(index, flat_exp):
         per_case[ci].append(e)
-    total = {"spec": "ObjectiveCases", "mode": "bfs", "distinct": sum(r["distinct"] for r, _ in outs), "generated": sum(r["generated"] for r, _ in outs),
+    total = {"spec": module, "mode": "bfs", "distinct": sum(r["distinct"] for r, _ in outs), "generated": sum(r["generated"] for r, _ in outs),
              "wall_s": max(r["wall_s"] for r, _ in outs), "complete": all(r["complete"] for r, _ in outs), "actions": {}}
     return per_case, total
 
